@@ -15,10 +15,14 @@
 // candidate is validators[pos(t)] and t lies in a slot; with an unresolvable
 // validator set, before the TDPoS init time, or when the schedule names no
 // slot, nobody may be accepted. single: accepted iff miner, key and signature
-// are all right. PoW is judged one-directionally (accepted implies ...): a
-// stricter implementation never alarms; the reference retarget is the rule
-// pow.go cites (Bitcoin pow.cpp: all values from the parent), applied to the
-// chain the implementation's own miner built.
+// are all right. PoW is judged one-directionally (accepted implies ...): the
+// prescribed bits of a height are what the implementation's own miner side
+// (ProcessBeforeMiner) yields on that parent chain; accepted implies bits equal
+// to them, hash not above their target, timestamp not before the parent's,
+// signature valid. The retarget formula (clamp x4 / :4, floor at the max
+// target) is checked on the ancestors the implementation reads; that it reads
+// them one block later than Bitcoin's pow.cpp is an evidence counter only
+// (pow.lags_bitcoin_rule_by_one_block).
 //
 // Nothing is sampled: every domain is an explicit finite list iterated in index
 // order; goroutines only partition the list.
